@@ -10,7 +10,7 @@ use crate::rval::{lookup, Closure, Env, RVal, Rat};
 use crate::term::{Dom, Op, UOp, T};
 use std::cell::RefCell;
 use std::collections::BTreeSet;
-use std::rc::Rc;
+use std::sync::Arc as Rc;
 
 pub struct Interp {
   pub dev: bool,
@@ -310,7 +310,7 @@ impl Interp {
     }
   }
 
-  /// `x in (t1, t2, ..)`: true if some test is satisfied.
+  /// `x in (t1, t2, ..)`: true if some test is satisfied (ternary `or` over the tests).
   fn in_tests(&self, x: &RVal, tests: &[RVal]) -> RVal {
     if x.is_unspec_deep() || tests.iter().any(|t| t.is_unspec_deep()) {
       return RVal::Unspec;
@@ -320,21 +320,45 @@ impl Interp {
     }
     let mut saw_null = false;
     let mut saw_unspec = false;
+    let mut spec = None;
     for t in tests {
       match self.in_one(x, t) {
-        RVal::Bool(true) => return RVal::Bool(true),
+        RVal::Bool(true) => {
+          spec = Some(RVal::Bool(true));
+          break;
+        }
         RVal::Bool(false) => {}
         RVal::Unspec => saw_unspec = true,
         _ => saw_null = true,
       }
     }
-    if saw_unspec {
+    let spec = spec.unwrap_or(if saw_unspec {
       RVal::Unspec
     } else if saw_null {
       RVal::Null
     } else {
       RVal::Bool(false)
+    });
+    if !self.dev {
+      return spec;
     }
+    // implementation-like evaluation (see build_in / eval_in_list in feel-evaluator/src/builders.rs)
+    let devv = if tests.len() == 1 { in_dev(x, &tests[0], false) } else { in_list_dev(x, tests) };
+    if matches!(devv, RVal::Unspec) || same(&spec, &devv) {
+      return spec;
+    }
+    let tag: &'static str = match (&spec, &devv) {
+      (RVal::Bool(_), RVal::Null) => "in-list-null-item",
+      (RVal::Bool(true), RVal::Bool(false)) => "in-list-null-item",
+      (RVal::Null, RVal::Bool(false)) => "in-tests-nonboolean-as-false",
+      (RVal::Unspec, _) => return RVal::Unspec,
+      _ => return spec,
+    };
+    if !self.allowed.contains(tag) {
+      return spec;
+    }
+    self.tags.borrow_mut().insert(tag);
+    devv
   }
 
   fn in_one(&self, x: &RVal, t: &RVal) -> RVal {
@@ -343,11 +367,15 @@ impl Interp {
         // membership: x = i1 or x = i2 ..; items may themselves be tests
         let mut saw_null = false;
         let mut saw_unspec = false;
-        let mut null_item_before_hit = false;
         let mut hit = false;
         for i in items {
           let r = match i {
-            RVal::Range(..) | RVal::Unary(..) | RVal::List(_) => self.in_one(x, i),
+            // a nested list: `x in [[..]]` recurses; anything but a clean boolean from it is murky
+            RVal::List(_) => match self.in_one(x, i) {
+              RVal::Bool(b) => RVal::Bool(b),
+              _ => RVal::Unspec,
+            },
+            RVal::Range(..) | RVal::Unary(..) => self.in_one(x, i),
             _ => match equal(x, i) {
               Eq3::True => RVal::Bool(true),
               Eq3::False => RVal::Bool(false),
@@ -364,46 +392,6 @@ impl Interp {
             RVal::Unspec => saw_unspec = true,
             _ => saw_null = true,
           }
-          if matches!(i, RVal::Null) {
-            null_item_before_hit = true;
-            break;
-          }
-        }
-        // implementation: stops with null at the first null item
-        if null_item_before_hit && !matches!(x, RVal::Null) {
-          // spec value: continue scanning
-          let mut spec_hit = false;
-          let mut spec_unspec = saw_unspec;
-          for i in items {
-            match i {
-              RVal::Range(..) | RVal::Unary(..) | RVal::List(_) => {
-                if let RVal::Bool(true) = self.in_one(x, i) {
-                  spec_hit = true
-                }
-              }
-              _ => match equal(x, i) {
-                Eq3::True => spec_hit = true,
-                Eq3::Null | Eq3::Unspec => spec_unspec = true,
-                Eq3::False => {}
-              },
-            }
-          }
-          let spec = if spec_hit {
-            RVal::Bool(true)
-          } else if spec_unspec {
-            RVal::Unspec
-          } else {
-            RVal::Bool(false)
-          };
-          if matches!(spec, RVal::Unspec) {
-            return spec;
-          }
-          return self.deviate("in-list-null-item", spec, || RVal::Null);
-        }
-        if matches!(x, RVal::Null) && items.iter().any(|i| matches!(i, RVal::Null)) {
-          // null in [.., null, ..]: true by the letter (null = null)
-          let spec = RVal::Bool(true);
-          return self.deviate("in-list-null-item", spec, || RVal::Null);
         }
         if hit {
           RVal::Bool(true)
@@ -572,7 +560,11 @@ impl Interp {
           if uses_item {
             return RVal::Unspec;
           }
-          return index(&[scalar.clone()], ix);
+          let spec = index(&[scalar.clone()], ix);
+          // the implementation accepts only the index 1 on a non-list value
+          let one = ix.is_int() && ix.n == 1;
+          let sc = scalar.clone();
+          return self.deviate("filter-scalar-negative-index", spec, move || if one { sc } else { RVal::Null });
         }
         let inner = self.eval(p, &self.item_env(env, scalar));
         let spec = match inner {
@@ -887,4 +879,69 @@ pub fn same(a: &RVal, b: &RVal) -> bool {
     (Unary(o1, x), Unary(o2, y)) => o1 == o2 && same(x, y),
     _ => false,
   }
+}
+
+fn eq_dev(x: &RVal, i: &RVal) -> bool {
+  // eval_ternary_equality(..) == Some(true); null on the left is only equal to null
+  matches!(equal(x, i), Eq3::True)
+}
+
+/// `in` as the implementation evaluates it for one right-hand value.
+fn in_dev(x: &RVal, rhs: &RVal, nested: bool) -> RVal {
+  match rhs {
+    RVal::Num(_) | RVal::Str(_) | RVal::Bool(_) | RVal::Ctx(_) => RVal::Bool(eq_dev(x, rhs)),
+    RVal::Range(lc, a, b, rc) => match (cmp_same_kind(a, x), cmp_same_kind(x, b)) {
+      (Some(Some(o1)), Some(Some(o2))) => {
+        let l_ok = if *lc { o1 != std::cmp::Ordering::Greater } else { o1 == std::cmp::Ordering::Less };
+        let r_ok = if *rc { o2 != std::cmp::Ordering::Greater } else { o2 == std::cmp::Ordering::Less };
+        RVal::Bool(l_ok && r_ok)
+      }
+      (Some(None), _) | (_, Some(None)) => RVal::Unspec,
+      _ => RVal::Null,
+    },
+    RVal::List(inner) => {
+      if matches!(x, RVal::List(_)) && !nested {
+        RVal::Unspec
+      } else {
+        in_list_dev(x, inner)
+      }
+    }
+    RVal::Unary(op, e) => match cmp_same_kind(x, e) {
+      Some(Some(o)) => RVal::Bool(match op {
+        UOp::Lt => o == std::cmp::Ordering::Less,
+        UOp::Le => o != std::cmp::Ordering::Greater,
+        UOp::Gt => o == std::cmp::Ordering::Greater,
+        UOp::Ge => o != std::cmp::Ordering::Less,
+      }),
+      Some(None) => RVal::Unspec,
+      None => RVal::Null,
+    },
+    RVal::Unspec => RVal::Unspec,
+    _ => RVal::Null,
+  }
+}
+
+fn in_list_dev(x: &RVal, items: &[RVal]) -> RVal {
+  for i in items {
+    match i {
+      RVal::Num(_) | RVal::Str(_) | RVal::Bool(_) | RVal::Ctx(_) => {
+        if eq_dev(x, i) {
+          return RVal::Bool(true);
+        }
+      }
+      RVal::Unary(..) | RVal::Range(..) => match in_dev(x, i, true) {
+        RVal::Bool(true) => return RVal::Bool(true),
+        RVal::Unspec => return RVal::Unspec,
+        _ => {}
+      },
+      RVal::List(inner) => match in_list_dev(x, inner) {
+        RVal::Bool(true) => return RVal::Bool(true),
+        RVal::Unspec => return RVal::Unspec,
+        _ => {}
+      },
+      RVal::Unspec => return RVal::Unspec,
+      _ => return RVal::Null,
+    }
+  }
+  RVal::Bool(false)
 }
